@@ -129,6 +129,7 @@ pub fn schedule_part(run: &Run) -> SchedOut {
         }
     });
     let wide = wide_part(run);
+    let noelim = noelim_part(run);
     let g = totals.into_inner().unwrap();
     SchedOut {
         executions: g.0,
@@ -138,6 +139,7 @@ pub fn schedule_part(run: &Run) -> SchedOut {
                      "lock_points_passed": g.1, "scheduled_parallel_calls": g.2, "problems_where_bound_cut": g.4, "problems_in_which_two_workers_take_a_write_lock": run.get("sched_problems_with_two_writers"), "execution_cap_per_problem": exec_cap,
                      "prefixes_not_replayable_because_of_hash_order": run.get("sched_prefixes_not_replayable"),
                      "wide_calls": wide,
+                     "no_elimination_route": noelim,
                      "note": "KhHomology::new is not a deterministic function of the schedule (hash-seeded orders); a DFS prefix that cannot be followed is abandoned and the execution that happened is judged instead, so the enumeration below the bound is not guaranteed complete"}),
     }
 }
@@ -244,4 +246,76 @@ fn wide_part(run: &Run) -> Value {
     });
     let v = out.into_inner().unwrap();
     json!({"rule": "TngComplexBuilder with auto_deloop = auto_elim = false on closures of 3-braids with 7 letters (thorough: also 8; 2^k vertices after k crossings); deviations = preemptions + hand-overs at task ends", "deviation_bound": bound, "problems": v})
+}
+
+/// The non-default elimination schedule under threads: the builder with `auto_elim = false` hands an
+/// un-simplified complex to `KhHomology::from`, whose chain reducer then runs the parallel pivot
+/// search on differentials that mix units and non-units (for (h,t) = (3,1), (1,2); with h = t = 0
+/// every entry is +-1, and on the default route every unit is eliminated at the tangle level so the
+/// pivot search finds nothing).  The construction runs sequentially, the homology computation under
+/// the scheduler: every hand-over a deviation, bound 1 (thorough 2); homology = cube.
+fn noelim_part(run: &Run) -> Value {
+    use yui_kh::kh::internal::v2::builder::TngComplexBuilder;
+    use yui_link::Crossing;
+    let th = run.thorough();
+    let env_names: Option<Vec<String>> = std::env::var("VERIF_C01_NOELIM").ok().map(|s| s.split(',').map(|x| x.to_string()).collect());
+    let default_names: &[&str] = if th { &["3_1", "4_1", "5_1", "5_2", "6_1", "6_2", "6_3"] } else { &["3_1", "4_1", "5_2"] };
+    let names: Vec<String> = env_names.unwrap_or_else(|| default_names.iter().map(|s| s.to_string()).collect());
+    let params: &[(i64, i64)] = &[(3, 1), (1, 2)];
+    let jobs: Vec<(usize, usize)> = (0..names.len()).flat_map(|a| (0..params.len()).map(move |b| (a, b))).collect();
+    let out = std::sync::Mutex::new(vec![]);
+    run.par_for(jobs.len(), |ji| {
+        let (ni, pi) = jobs[ji];
+        let (h, t) = params[pi];
+        let link = yui_link::Link::load(&names[ni]).expect("table knot");
+        let Some((d, _)) = Diagram::from_pd(&pd_of(&link)) else { return };
+        let reference = khovanov::<Z>(&d, &z(h), &z(t), None).total;
+        let key = format!("khsched-noelim:{}:h={h},t={t}", names[ni]);
+        let complex = {
+            let mut b = TngComplexBuilder::<num_bigint::BigInt>::new(&link, &num_bigint::BigInt::from(h), &num_bigint::BigInt::from(t), None);
+            b.auto_elim = false;
+            b.set_elements(vec![]);
+            b.set_crossings(link.data().iter().cloned().collect::<Vec<Crossing>>());
+            b.process_all();
+            b.finalize();
+            b.into_kh_complex()
+        };
+        let cfg = Config { workers: 2, choose_items: false, max_decisions: 2_000_000, min_items: 2, count_task_switches: true };
+        let mut two_writers = false;
+        let t0 = std::time::Instant::now();
+        let st = sched::explore(&cfg, Some(if th { 2 } else { 1 }), if th { 500_000 } else { 20_000 }, || total_table(&KhHomology::from(&complex)), |r, tr| {
+            if !two_writers {
+                let ws: BTreeSet<u8> = tr.labels.iter().filter(|l| l.1 == "rwlock.write").map(|l| l.0).collect();
+                two_writers = ws.len() >= 2;
+            }
+            if tr.diverged.is_some() {
+                run.add("sched_prefixes_not_replayable", 1);
+            }
+            let detail = || json!({"knot": names[ni], "h": h, "t": t, "builder": "auto_elim = false", "schedule": tr.choices(), "deviations": tr.preemptions()});
+            match (&tr.abort, r) {
+                (Some(ab), _) => {
+                    run.fail(&key, &format!("aborted under schedule: {ab:?}"), detail());
+                    false
+                }
+                (None, Err(p)) => {
+                    let m = p.downcast_ref::<String>().cloned().or_else(|| p.downcast_ref::<&str>().map(|s| s.to_string())).unwrap_or_default();
+                    run.fail(&key, &format!("panicked outside a parallel call: {m}"), detail());
+                    false
+                }
+                (None, Ok(tab)) => {
+                    if let Some(diff) = diff_tables(&tab, &reference) {
+                        run.fail(&key, &format!("homology under this schedule differs from the cube: {diff}"), detail());
+                        return false;
+                    }
+                    true
+                }
+            }
+        });
+        if !st.complete && run.nviolations() == 0 {
+            run.cap("part 3 (no-elimination route): execution cap hit");
+        }
+        out.lock().unwrap().push(json!({"knot": names[ni], "h": h, "t": t, "executions": st.executions, "complete_below_bound": st.complete, "two_workers_write_the_pivot_table": two_writers,
+                                        "lock_points_passed": st.points, "seconds": t0.elapsed().as_secs_f64()}));
+    });
+    json!({"rule": "TngComplexBuilder with auto_elim = false (sequential), then KhHomology::from under the scheduler; deviations = preemptions + hand-overs, bound 1 (thorough 2)", "problems": out.into_inner().unwrap()})
 }
